@@ -185,6 +185,11 @@ func TestC10_WireFormat(t *testing.T) {
 		if err != nil {
 			t.Fatalf("valid set does not encode: %v [%s]", err, m.ClassVector())
 		}
+		outSnap := string(out)
+		interfere()
+		if string(out) != outSnap {
+			t.Fatalf("C10 violated (%s route): the emitted bytes changed while other claims-sets were being encoded", route)
+		}
 		if msg := c10CheckWire(out, m); msg != "" {
 			t.Fatalf("C10 violated (%s route): %s\n emitted: %x\n [%s]", route, msg, out, m.ClassVector())
 		}
@@ -212,6 +217,11 @@ func c09RoundTrip(c psatoken.IClaims, valid bool, decode func([]byte) (psatoken.
 			return "valid claims-set does not encode: " + err.Error()
 		}
 		return "" // invalid set: an encoder error is an allowed outcome
+	}
+	encSnap := string(enc)
+	interfere() // the bytes are used after other encodings have happened
+	if string(enc) != encSnap {
+		return "the bytes returned by EncodeClaimsToCBOR changed while other claims-sets were being encoded"
 	}
 	d, err := decode(enc)
 	if err != nil {
